@@ -474,6 +474,8 @@ def replay(case, conc, cand=None):
     import groupby_lib.emas as rem
     conc = common.fix_nans(conc)
     v = case["variant"]
+    if v == "layout":
+        return replay_layout(case, conc)
     try:
         if v in ("grouped", "timed"):
             codes = case["codes"]
@@ -679,3 +681,90 @@ def replay_mask_relations(case, conc):
     else:
         bad = [i for i in range(N) if not approx_same(float(om[i]), float(other[i]))]
     return bool(bad), {"masked": jsonable(om), case["relation"]: jsonable(other), "differ_at": bad, "codes": codes, "mask": bits, "x": jsonable(xs)}
+
+
+
+# ------------------------------------------------------------------ GroupBy.ema(index_by_groups=True): the group-sorted layout
+def run_layout(E, case, prop):
+    """the numbers of the group-sorted layout are those of the row-aligned layout, listed group by group (labels in any order),
+    rows in original order inside a group, rows with a null key left out"""
+    from .gbcore import make_gb
+    from ..models import FakeSeries
+    t0 = time.time()
+    N, G = case["N"], case["G"]
+    res = _blank()
+    for codes in all_codes(N, G, True):
+        if case.get("first") is not None and codes[0] != case["first"]:
+            continue
+        nn = sum(1 for c in codes if c >= 0)
+        if nn == 0:
+            continue
+        for order in case["orders"]:
+            for mbits in case["masks"]:
+                inp = Inputs()
+                xs = inp.values("x", N, "float64")
+                inp.vars["k"] = ("const", list(codes), "int64")
+                rt = fresh_runtime()
+                rt.div_obligation = True
+                rt.size_hints = [nn]
+
+                def gb_():
+                    gb = make_gb(E, G, codes=A(list(codes), "int64"))
+                    if list(order) != sorted(order):
+                        gb.__dict__["_labels_argsort"] = A(list(order), "int64")
+                        gb._sort = True
+                        gb._index_is_sorted = False
+                    return gb
+                mask = A(list(mbits), "bool") if mbits is not None else None
+                extra = {"codes": list(codes), "label_order": list(order), "mask": list(mbits) if mbits is not None else None}
+                try:
+                    o_sorted = gb_().ema(A(xs, "float64").tag("input:values"), alpha=0.5, mask=mask, index_by_groups=True)
+                    o_rows = gb_().ema(A(xs, "float64").tag("input:values"), alpha=0.5, mask=mask)
+                except (Unsupported, OutsideModel):
+                    raise
+                except Exception as e:      # noqa: BLE001
+                    res["verdict"] = "sat"
+                    res["subcases"] += 1
+                    if len(res["candidates"]) < 3:
+                        res["candidates"].append({"signature": f"{prop}:raises:{type(e).__name__}:ema_layout", "case": dict(case, **extra, variant="layout"),
+                                                  "inputs": {"x": [float(i + 1) for i in range(N)]}, "kind": "raises", "labels": [f"{type(e).__name__}: {str(e)[:160]}"]})
+                    continue
+                o_sorted = o_sorted.arr if isinstance(o_sorted, FakeSeries) else o_sorted
+                o_rows = o_rows.arr if isinstance(o_rows, FakeSeries) else o_rows
+                want = sorted([i for i in range(N) if codes[i] >= 0], key=lambda i: (list(order).index(codes[i]), i))
+                bl = []
+                if len(o_sorted) != len(want):
+                    bl.append((f"group-sorted layout has {len(o_sorted)} rows, expected {len(want)}", True))
+                else:
+                    for pos, i in enumerate(want):
+                        bl.append((f"position {pos} holds the EMA of row {i}", b_not(same(_sf(o_sorted.cells[pos]), _sf(o_rows.cells[i])))))
+                _decide_into(res, inp, bl, rt, dict(case, variant="layout"), prop, extra, sig="ema_group_sorted_layout")
+    res["symex_s"] = time.time() - t0 - res["solver_s"]
+    return _finish(res, E)
+
+
+def replay_layout(case, conc):
+    from . import c03 as C3
+    conc = common.fix_nans(conc)
+    codes, order = case["codes"], case["label_order"]
+    N, G = len(codes), case["G"]
+    xs = real_np.array([float(c) for c in to_float_cells(conc["x"])])
+    mask = real_np.array(case["mask"], dtype=bool) if case.get("mask") is not None else None
+
+    def gb_():
+        gb = C3.real_gb(G, codes=codes)
+        if list(order) != sorted(order):
+            gb.__dict__["_labels_argsort"] = real_np.array(order)
+            gb._sort = True
+            gb._index_is_sorted = False
+        return gb
+    try:
+        a = gb_().ema(xs, alpha=0.5, mask=mask, index_by_groups=True).to_numpy()
+        b = gb_().ema(xs, alpha=0.5, mask=mask).to_numpy()
+    except Exception as e:      # noqa: BLE001
+        return True, f"real call raised {type(e).__name__}: {e}"
+    want = sorted([i for i in range(N) if codes[i] >= 0], key=lambda i: (list(order).index(codes[i]), i))
+    if len(a) != len(want):
+        return True, {"group_sorted": jsonable(list(a)), "expected_rows": want}
+    bad = [p for p, i in enumerate(want) if not approx_same(float(a[p]), float(b[i]))]
+    return bool(bad), {"group_sorted": jsonable(list(a)), "row_aligned": jsonable(list(b)), "expected_rows": want, "wrong_positions": bad}
